@@ -16,7 +16,8 @@ From Coq Require Import ZArith List Bool Lia.
 From Low Require Import Lib.MachInt Lib.Bits Lib.BitSeq Model.BitmapJoin Model.LegacyBitmap Spec.JoinSpec
   Proofs.JoinProofs Model.BitmapMask Spec.MaskSpec Model.BitmapGetw32 Spec.GetwSpec Proofs.GetwProofs
   Model.BitmapOf Model.BitmapSliceArray Spec.SliceArraySpec Proofs.SliceArrayProofs
-  Model.BitmapFmt Spec.FmtSpec Proofs.FmtProofs Proofs.SliceLaws.
+  Model.BitmapFmt Spec.FmtSpec Proofs.FmtProofs Proofs.SliceLaws
+  Model.Rank Model.BitmapNext Spec.NextSpec Spec.SliceComposeSpec Proofs.SliceCompose.
 Import ListNotations.
 Open Scope Z_scope.
 
@@ -140,6 +141,29 @@ Theorem C14_Join_64 : forall vs, words_ok vs -> Join vs 64 = Some vs.
 Proof. exact Join_64. Qed.
 Print Assumptions C14_Join_64.
 
+(** counting and searching inside a slice = counting and searching inside the range of the original
+    (C14 composed with C01 Rank64 and C13 NextOne / PrevOne): for [r = Slice ws a b] and [0 <= j < b-a],
+    Rank64 of [r] at [j] = (1-bits of [ws] in [a, a+j), bit [a+j] of [ws]); NextOne / PrevOne of [r] over
+    [j, b-a) = the first / last 1-bit of [ws] in [a+j, b), minus [a], or -1. *)
+Theorem C14_Slice_Rank64 : forall ws a b tr j, words_ok ws -> 0 <= a <= b -> b <= 64 * zlen ws ->
+  0 <= j < b - a ->
+  SliceRank64 ws a b tr j =
+    Some (rank1z (flat ws) (a + j) - rank1z (flat ws) a, Z.b2z (bitz (flat ws) (a + j))).
+Proof. exact SliceRank64_correct. Qed.
+Print Assumptions C14_Slice_Rank64.
+
+Theorem C14_Slice_NextOne : forall ws a b j, words_ok ws -> 0 <= a <= b -> b <= 64 * zlen ws ->
+  0 <= j < b - a ->
+  SliceNextOne ws a b j = Some (shift_down a (spec_NextOne ws (a + j) b)).
+Proof. exact SliceNextOne_correct. Qed.
+Print Assumptions C14_Slice_NextOne.
+
+Theorem C14_Slice_PrevOne : forall ws a b j, words_ok ws -> 0 <= a <= b -> b <= 64 * zlen ws ->
+  0 <= j < b - a ->
+  SlicePrevOne ws a b j = Some (shift_down a (spec_PrevOne ws (a + j) b)).
+Proof. exact SlicePrevOne_correct. Qed.
+Print Assumptions C14_Slice_PrevOne.
+
 (** bitmap/fmt.go, the package's printer: Fmt of an integer of any of the 8 integer types prints its
     8*size binary digits (two's complement), least significant first, in groups of 8 separated by a
     space; the elements of a slice are separated by commas; a non-integer panics (an empty slice of
@@ -225,4 +249,12 @@ Example C14_laws_nonvacuous :
   Slice [2^63 + 2^62 + 0x29; 1] 3 70 = Slice [0xa5; 2^63 + 7] 5 72 /\
   Slice [0xa5; 2^63 + 7] 5 72 = Some [2^61 + 2^60 + 2^59 + 5; 0] /\
   Join [0xa5; 2^64 - 1] 64 = Some [0xa5; 2^64 - 1].
+Proof. vm_compute. intuition congruence. Qed.
+
+Example C14_compose_nonvacuous :
+  SliceRank64 [0xa5; 2^63 + 7] 2 127 true 63 = Some (4, 1) /\
+  rank1z (flat [0xa5; 2^63 + 7]) 65 - rank1z (flat [0xa5; 2^63 + 7]) 2 = 4 /\
+  SliceNextOne [0xa5; 2^63 + 7] 2 127 6 = Some 62 /\ spec_NextOne [0xa5; 2^63 + 7] 8 127 = 64 /\
+  SlicePrevOne [0xa5; 2^63 + 7] 2 127 6 = Some 64 /\
+  SliceNextOne [0xa5; 2^63 + 7] 8 64 0 = Some (-1).
 Proof. vm_compute. intuition congruence. Qed.
